@@ -57,14 +57,14 @@ var dischargeTable = []discharge{
 	{fn: "types/value.builtinRelational*", via: []string{"valtab:A1"}, reason: "called with the opcodes the VM passes only"},
 	{fn: "(types/value.Type).*", via: []string{"valtab:A1", "valtab:A2", "valtab:A7"}, reason: "every operator and renderer method is evaluated on every kind (pair); a reached abort is reported"},
 	{fn: "types/value.*", via: []string{"valtab:A1", "valtab:A2", "valtab:A7"}, reason: "helpers of the operator methods are interpreted with them"},
-	{fn: "(*vm.Type).Run", msg: "unknown global", via: []string{"bcai:B10"}, reason: "global operands address string constants"},
-	{fn: "(*vm.Type).Run", msg: "unexpected dst", via: []string{"bcai:B1"}, reason: "destination kinds emitted are accepted"},
-	{fn: "(*vm.Type).Run", msg: "cannot convert", via: []string{"bcai:B10", "bcai:B2"}, reason: "ARR's array operand is an array constant or the result of a previous ARR"},
-	{fn: "(*vm.Type).Run", msg: "can't pop instruc", via: []string{"vmshape:V7", "own:O8"}, reason: "CALL pushes an int right after PushFrame at the slot IP reads"},
-	{fn: "(*vm.Type).Run", msg: "context not found", via: []string{"bcai:B8"}, reason: "SCONT ids are created by a CCONT of the same loop"},
-	{fn: "(*vm.Type).Run", msg: "unknown opcode", via: []string{"bcai:T1", "vmshape:T1"}, reason: "every emitted opcode has a handler"},
-	{fn: "(*vm.Type).Run", kinds: "os.Exit", doc: true, reason: "documented behaviour of the exit builtin"},
-	{fn: "(*vm.Type).Run", kinds: "assert", msg: "vm.context", via: []string{"vmshape:V8"}, reason: "the free list only ever receives *context values (deleteContext)"},
+	{fn: "@vm", msg: "unknown global", via: []string{"bcai:B10"}, reason: "global operands address string constants"},
+	{fn: "@vm", msg: "unexpected dst", via: []string{"bcai:B1"}, reason: "destination kinds emitted are accepted"},
+	{fn: "@vm", msg: "cannot convert", via: []string{"bcai:B10", "bcai:B2"}, reason: "ARR's array operand is an array constant or the result of a previous ARR"},
+	{fn: "@vm", msg: "can't pop instruc", via: []string{"vmshape:V7", "own:O8"}, reason: "CALL pushes an int right after PushFrame at the slot IP reads"},
+	{fn: "@vm", msg: "context not found", via: []string{"bcai:B8"}, reason: "SCONT ids are created by a CCONT of the same loop"},
+	{fn: "@vm", msg: "unknown opcode", via: []string{"bcai:T1", "vmshape:T1"}, reason: "every emitted opcode has a handler"},
+	{fn: "@vm", kinds: "os.Exit", doc: true, reason: "documented behaviour of the exit builtin"},
+	{fn: "@vm", kinds: "assert", msg: "vm.context", via: []string{"vmshape:V8"}, reason: "the free list only ever receives *context values (deleteContext)"},
 	{fn: "(*vm.Type).fetch", via: []string{"bcai:B1", "bcai:B10"}, reason: "operand kinds emitted are fetchable; global operands address strings"},
 	{fn: "cmd/calc.*", doc: true, reason: "start-up code of the command (flags, profile files): environment failure, not a program the parser accepts"},
 	{fn: "types/node.NewRLReader", doc: true, reason: "terminal initialisation failure: environment"},
@@ -72,6 +72,11 @@ var dischargeTable = []discharge{
 }
 
 func matchFn(pat, fn string) bool {
+	if pat == "@vm" {
+		// any function of package vm: the run loop, fetch, or a helper split off
+		// them (the message and the discharging rules identify the site)
+		return strings.HasPrefix(fn, "vm.") || strings.HasPrefix(fn, "(*vm.") || strings.HasPrefix(fn, "(vm.")
+	}
 	if strings.Contains(pat, "*") {
 		parts := strings.SplitN(pat, "*", 2)
 		return strings.HasPrefix(fn, parts[0]) && strings.HasSuffix(fn, parts[1])
